@@ -153,6 +153,21 @@ Definition merge_voice_memo_offsets (ps0 ps : list part) : option (list (nat * e
      | _, _ => Some []
      end) 0%nat ps0 ps (mkOffs 0 0 0).
 
+(* the same variant in any mode (third hardening): the numbers in use of every input -- voices, staves, the count of
+   staves -- remembered from an earlier look (ps0), the elements as they are at the call (ps).  A part that memoises
+   its number of staves and resets the memo only in add / remove behaves like this after an attribute edit IN PLACE. *)
+Definition merge_memo_offsets (m : mode) (ps0 ps : list part) : option (list (nat * elem)) :=
+  let L := merge_lcm ps in
+  (fix go (i : nat) (ps0 ps : list part) (o : offs) : option (list (nat * elem)) :=
+     match ps0, ps with
+     | p0 :: r0, p :: r =>
+       match xform_part m L (Nat.eqb i 0) o p, go (S i) r0 r (next_offs o (fst p0)) with
+       | Some a, Some b => Some (map (pair i) a ++ b)
+       | _, _ => None
+       end
+     | _, _ => Some []
+     end) 0%nat ps0 ps (mkOffs 0 0 0).
+
 (* ------------------------------------------------------------------ (4) merged parts merged again, any depth *)
 
 (* a history of merges: a part as it was built, or the result of merging the results of earlier merges
